@@ -41,7 +41,7 @@ for pid, (tech, ref) in sorted(T.items()):
         "thorough_cmd": f"./check {pid} thorough",
         "evidence_file": f"/verif/evidence/{pid}.json",
         "replay_cmd_template": f"./check replay {pid} {{path}}",
-        "engine": "harness",
+        "engine": "protocheck" if pid == "C20" else "harness",
         "level_claimed": {
             "category": "exploration",
             "text": "Generated-input search against an explicit oracle (reference model / independent implementation / metamorphic relation); finds violations within the generated bounds, never proves absence. Evidence reports cases, distinct non-trivial cases by a stated rule, class distribution and samples.",
@@ -61,8 +61,10 @@ m = {
   "add_only": True,
  },
  "engines": [
-  {"name": "harness", "path": "/verif/harness", "serves_properties": sorted(T.keys()),
-   "kind_free_text": "Rust crate: chain simulator + reference model + proptest drivers (16 worker threads) + replay; path-depends on /repo's contracts so every run rebuilds from the current tree"},
+  {"name": "harness", "path": "/verif/harness", "serves_properties": sorted(k for k in T.keys() if k != "C20"),
+   "kind_free_text": "Rust crate: chain simulator + reference model + proptest drivers (16 worker threads) + replay; path-depends on /repo's contracts so every run rebuilds from the current tree; a second build with --features miniwasm lives in /verif/target-mw (C19)"},
+  {"name": "protocheck", "path": "/verif/protocheck", "serves_properties": ["C20"],
+   "kind_free_text": "Rust crate + tools/extract_schema.py: dispatch table over every prost message type of the current tree, schema-driven independent encoder, osmosis-std differential, pinned baseline in /verif/baseline"},
  ],
  "checks": checks,
  "notes": "exit 0 = held on everything explored; 1 = VIOLATION line; 2 = inconclusive (build failure, harness error, generator starvation). Findings and fixes: known_findings.json and DESIGN.md section 7.",
